@@ -90,7 +90,7 @@ def symlen(x):
 
 
 
-_OPTIONAL_ATTRS = {"sum_of", "stacked", "log", "weighted_parts", "tok"}
+_OPTIONAL_ATTRS = {"sum_of", "stacked", "log", "weighted_parts", "tok", "origin", "prefix_of", "log_of", "built_from", "root"}
 
 
 def _missing_attribute(owner, name):
@@ -338,8 +338,10 @@ class MArr(_ModelObject):
             return DaskToken(self)
         a = self
         dims = self.dims
-        return NArr(tuple(self.sizes[d] for d in dims), lambda p: a._elem({d: p[k] for k, d in enumerate(dims)}),
-                    labels=list(dims))
+        v = NArr(tuple(self.sizes[d] for d in dims), lambda p: a._elem({d: p[k] for k, d in enumerate(dims)}),
+                 labels=list(dims))
+        v.origin = self  # a VIEW of this array's buffer: in-place arithmetic on it writes into this array
+        return v
 
     @property
     def values(self):
@@ -358,12 +360,25 @@ class MArr(_ModelObject):
         return self._elem(idx)
 
     def _new(self, dims, sizes, elem, **kw):
+        view_of = kw.pop("view_of", None)
         kw.setdefault("name", self._name)
         kw.setdefault("coords", self.coords.copy())
         kw.setdefault("attrs", self._attrs)
         kw.setdefault("dask", self.dask)
         kw.setdefault("dtype", self.dtype)
-        return MArr(dims, sizes, elem, **kw)
+        out = MArr(dims, sizes, elem, **kw)
+        if view_of is not None:
+            # shares the data buffer of `view_of` (shallow copy, slicing, renaming, ...): in-place arithmetic on it writes into the root
+            r0 = getattr(view_of, "root", None)
+            out.root = view_of if r0 is None else r0
+        return out
+
+    def _buffer_owner_log(self, what):
+        """record a write into this array's data buffer on the array itself and on the array whose buffer it shares"""
+        self.log.append((what, None))
+        root = getattr(self, "root", None)
+        if root is not None and root is not self:
+            root.log.append((what + " (through a view)", None))
 
     def __getitem__(self, k):
         if isinstance(k, str):
@@ -403,13 +418,13 @@ class MArr(_ModelObject):
 
     # ---- copying / coords -----------------------------------------------------------------
     def copy(self, deep=True, data=None):
-        return self._new(self.dims, self.sizes, self._elem, tok=self.tok)
+        return self._new(self.dims, self.sizes, self._elem, tok=self.tok, view_of=None if (deep and data is None) else self)
 
     def reset_coords(self, names=None, drop=False):
         if not drop:
             raise EngineUnsupported("reset_coords(drop=False)")
         keep = Coords({k: v for k, v in self.coords.items() if k in self.dims})
-        return self._new(self.dims, self.sizes, self._elem, coords=keep, tok=self.tok)
+        return self._new(self.dims, self.sizes, self._elem, coords=keep, tok=self.tok, view_of=self)
 
     def reset_index(self, dims_or_levels, drop=False):
         if not drop:
@@ -419,7 +434,7 @@ class MArr(_ModelObject):
             if n not in self.coords:
                 raise ValueError(f"{n} is not an index")
         keep = Coords({k: v for k, v in self.coords.items() if k not in names})
-        return self._new(self.dims, self.sizes, self._elem, coords=keep, tok=self.tok)
+        return self._new(self.dims, self.sizes, self._elem, coords=keep, tok=self.tok, view_of=self)
 
     def drop_vars(self, names, errors="raise"):
         if isinstance(names, str):
@@ -429,7 +444,7 @@ class MArr(_ModelObject):
             if n not in self.coords and errors == "raise":
                 raise ValueError(f"cannot drop {n}: not a coordinate")
         keep = Coords({k: v for k, v in self.coords.items() if k not in names})
-        return self._new(self.dims, self.sizes, self._elem, coords=keep, tok=self.tok)
+        return self._new(self.dims, self.sizes, self._elem, coords=keep, tok=self.tok, view_of=self)
 
     def assign_coords(self, coords=None, **kw):
         new = dict(coords or {})
@@ -461,7 +476,7 @@ class MArr(_ModelObject):
                                  tok=("raw", next(_uid)))
             else:
                 raise EngineUnsupported(f"assign_coords with a value of type {type(v).__name__} for {k!r}")
-        return self._new(self.dims, self.sizes, self._elem, coords=out, tok=self.tok)
+        return self._new(self.dims, self.sizes, self._elem, coords=out, tok=self.tok, view_of=self)
 
     # ---- indexing -------------------------------------------------------------------------
     def isel(self, indexers=None, drop=False, **kw):
@@ -531,17 +546,16 @@ class MArr(_ModelObject):
         if isinstance(new_name_or_name_dict, dict):
             m.update(new_name_or_name_dict)
         elif new_name_or_name_dict is not None:
-            return self._new(self.dims, self.sizes, self._elem, name=new_name_or_name_dict, tok=self.tok)
+            return self._new(self.dims, self.sizes, self._elem, name=new_name_or_name_dict, tok=self.tok, view_of=self)
         m.update(kw)
         for a, b in m.items():
             if a not in self.dims and a not in self.coords:
                 raise ValueError(f"cannot rename {a!r} because it is not a variable or dimension in this dataset")
-        for a, b in m.items():
-            if a in self.dims and b in self.dims and b not in m and a != b:
-                raise ValueError(f"the new name {b!r} conflicts")
         newdims = [m.get(d, d) for d in self.dims]
         if len(set(newdims)) != len(newdims):
-            raise ValueError(f"rename would produce duplicate dimensions {newdims}")
+            # xarray ACCEPTS this (duplicate dimension names, with a warning); arrays with duplicate dimension names are outside
+            # this model - an engine limit, not an exception of the library
+            raise EngineUnsupported(f"rename would produce duplicate dimension names {newdims} (accepted by xarray, not representable here)")
         inv = {m.get(d, d): d for d in self.dims}
         old = self
         f = lambda idx: old._elem({inv[k]: v for k, v in idx.items()})
@@ -555,7 +569,7 @@ class MArr(_ModelObject):
                 name=m.get(k, k), attrs=c._attrs, tok=c.tok if not any(x in m for x in c.dims) and k not in m else ("rename", c.tok))
         dask = None if self.dask is None else {m.get(d, d): v for d, v in self.dask.items()}
         return self._new(newdims, {m.get(d, d): s for d, s in self.sizes.items()}, f,
-                         coords=coords, dask=dask)
+                         coords=coords, dask=dask, view_of=self)
 
     def squeeze(self, dim=None, drop=False):
         if dim is not None:
@@ -569,7 +583,7 @@ class MArr(_ModelObject):
         f = lambda idx: old._elem({**idx, **{d: z3.IntVal(0) for d in dropd}})
         coords = Coords({k: c for k, c in self.coords.items() if not any(d in c.dims for d in dropd)})
         dask = None if self.dask is None else {d: v for d, v in self.dask.items() if d in keep}
-        return self._new(keep, {d: self.sizes[d] for d in keep}, f, coords=coords, dask=dask)
+        return self._new(keep, {d: self.sizes[d] for d in keep}, f, coords=coords, dask=dask, view_of=self)
 
     def expand_dims(self, dim=None, axis=None):
         dims = [dim] if isinstance(dim, str) else list(dim)
@@ -580,7 +594,7 @@ class MArr(_ModelObject):
         f = lambda idx: old._elem({k: v for k, v in idx.items() if k not in dims})
         nd = tuple(dims) + self.dims
         dask = None if self.dask is None else {**{d: (1,) for d in dims}, **self.dask}
-        return self._new(nd, {**{d: 1 for d in dims}, **self.sizes}, f, dask=dask)
+        return self._new(nd, {**{d: 1 for d in dims}, **self.sizes}, f, dask=dask, view_of=self)
 
     def transpose(self, *dims, **kw):
         dims = list(dims)
@@ -593,7 +607,7 @@ class MArr(_ModelObject):
             dims = list(reversed(self.dims))
         if sorted(map(str, dims)) != sorted(map(str, self.dims)) or len(dims) != len(self.dims):
             raise ValueError(f"{tuple(dims)} must be a permuted list of {self.dims}, unless `...` is included")
-        return self._new(dims, self.sizes, self._elem, tok=self.tok)
+        return self._new(dims, self.sizes, self._elem, tok=self.tok, view_of=self)
 
     # ---- padding ---------------------------------------------------------------------------
     def pad(self, pad_width=None, mode="constant", constant_values=None, **kw):
@@ -659,7 +673,7 @@ class MArr(_ModelObject):
                 dask[d] = tuple(c)
             else:
                 raise EngineUnsupported(f"chunk spec {c!r}")
-        return self._new(self.dims, self.sizes, self._elem, dask=dask, tok=self.tok)
+        return self._new(self.dims, self.sizes, self._elem, dask=dask, tok=self.tok, view_of=self)
 
     # ---- arithmetic -------------------------------------------------------------------------
     def _binop(self, other, op, reflected=False):
@@ -721,6 +735,32 @@ class MArr(_ModelObject):
 
     def __truediv__(s, o):
         return s._binop(o, lambda x, y: x / y)
+
+    # in-place arithmetic WRITES INTO THIS OBJECT (xarray: `a *= b` updates a's buffer; every alias of `a`, e.g. the caller's array,
+    # sees the new values): logged as a mutation (C18) and the element function of this very object is replaced
+    def _inplace(s, o, op, opname):
+        snapshot = s._new(s.dims, s.sizes, s._elem, name=s._name)  # the values before the update (the update must not read itself)
+        res = snapshot._binop(o, op)
+        if res is NotImplemented:
+            return NotImplemented
+        if set(res.dims) != set(s.dims):
+            raise ValueError(f"in-place {opname} would change the dimensions {s.dims} -> {res.dims}")
+        s._buffer_owner_log("in-place " + opname)
+        old = res
+        s._elem = lambda idx: old._elem(idx)
+        return s
+
+    def __imul__(s, o):
+        return s._inplace(o, lambda x, y: x * y, "*=")
+
+    def __iadd__(s, o):
+        return s._inplace(o, lambda x, y: x + y, "+=")
+
+    def __isub__(s, o):
+        return s._inplace(o, lambda x, y: x - y, "-=")
+
+    def __itruediv__(s, o):
+        return s._inplace(o, lambda x, y: x / y, "/=")
 
     def __rtruediv__(s, o):
         return s._binop(o, lambda x, y: x / y, True)
@@ -1085,7 +1125,33 @@ class NArr(_ModelObject):
                 else:
                     q.append(p[ax] + mp[1])
             return old._elem(tuple(q))
-        return NArr(tuple(shape), f, self.labels, self.dask)
+        out = NArr(tuple(shape), f, self.labels, self.dask)
+        if getattr(self, "origin", None) is not None:
+            out.origin = self.origin  # basic slicing gives a view
+        return out
+
+    def _inplace(self, o, op, opname):
+        res = self._bin(o, op)
+        if res is NotImplemented:
+            return NotImplemented
+        org = getattr(self, "origin", None)
+        if org is not None:
+            # writing through a view of an argument's buffer: a mutation of that argument (C18); the values the caller would see
+            # afterwards are not modelled further
+            org._buffer_owner_log(f"in-place {opname} through the array's data buffer")
+        return res
+
+    def __iadd__(s, o):
+        return s._inplace(o, lambda x, y: x + y, "+=")
+
+    def __isub__(s, o):
+        return s._inplace(o, lambda x, y: x - y, "-=")
+
+    def __imul__(s, o):
+        return s._inplace(o, lambda x, y: x * y, "*=")
+
+    def __itruediv__(s, o):
+        return s._inplace(o, lambda x, y: x / y, "/=")
 
     def _bin(self, o, op, refl=False):
         if isinstance(o, (int, float)) and not isinstance(o, bool):
@@ -1411,7 +1477,9 @@ def apply_ufunc_model(func, args, in_core, out_core, exclude, dask, kwargs, gufu
         def f(p, a=a, labels=labels):
             idx = {d: p[k] for k, d in enumerate(labels) if d in a.dims}
             return a._elem(idx)
-        narrs.append(NArr(shape, f, labels, dask=a.dask))
+        na = NArr(shape, f, labels, dask=a.dask)
+        na.origin = a  # numpy hands the function (a view of) the argument's own buffer
+        narrs.append(na)
     rec = symx.ctx().ghost.setdefault("apply_ufunc_calls", [])
     rec.append({"func": func, "narrs": narrs, "in_core": [list(c) for c in in_core],
                 "out_core": [list(c) for c in out_core], "exclude": set(exclude), "dask": dask,
@@ -1499,6 +1567,30 @@ class MDataset(_ModelObject):
         return k in self.coords or k in self.data_vars
 
     def __getitem__(self, k):
+        if isinstance(k, (list, tuple)):
+            # ds[[names]]: a new dataset with the listed variables. A listed name that is a DIMENSION without a coordinate variable
+            # becomes a default index coordinate 0..n-1 (xarray's virtual variable); every coordinate of the dataset whose
+            # dimensions are among those of the selection comes along
+            cc = Coords()
+            dv = OrderedDict()
+            need = []
+            for name in k:
+                if name in self.data_vars:
+                    dv[name] = self.data_vars[name]
+                    need += [d for d in self.data_vars[name].dims if d not in need]
+                elif name in self.coords:
+                    cc._d[name] = self.coords[name]
+                    need += [d for d in self.coords[name].dims if d not in need]
+                elif name in self._dims:
+                    n = self._dims[name]
+                    cc._d[name] = MArr((name,), {name: n}, lambda idx, name=name: z3.ToReal(idx[name]), name=name, tok=("range", name))
+                    need += [name] if name not in need else []
+                else:
+                    raise KeyError(name)
+            for ck, cv in self.coords.items():
+                if ck not in cc._d and all(d in need for d in cv.dims):
+                    cc._d[ck] = cv
+            return MDataset(OrderedDict((d, self._dims[d]) for d in need), coords=cc._d, data_vars=dv, attrs=self.attrs)
         if k in self.data_vars:
             v = self.data_vars[k]
         elif k in self.coords:
